@@ -468,4 +468,136 @@ Section PRev.
       + replace ll with (Z.of_nat (length lits)) by (unfold byte in *; lia). apply wild8_in_lits. subst r1. apply (src_at_app _ _ _ _ Hs).
   Qed.
 
+  (* ---------- one iteration, arbitrary input, partial mode ---------- *)
+  Definition ptop_post (s : dstate) (bs rout : list Z) (out : dout) : Prop :=
+    match out with
+    | Err _ => True
+    | Done s' =>
+        exists tok (r : list Z) ll (r1 : list Z),
+          bs = tok :: r /\ read_len (tok / 16) r = Some (ll, r1) /\ 0 <= ll /\
+          ((exists n : nat, Z.of_nat n <= ll /\ (n <= length r1)%nat /\ op s' = op s + Z.of_nat n /\ op s' <= oend /\
+                            out_at (vget (dm s')) (op s') (rev (firstn n r1) ++ rout))
+           \/ (exists lits o1 o2 (r3 : list Z) ml (r4 : list Z),
+                 take (Z.to_nat ll) r1 = Some (lits, o1 :: o2 :: r3) /\ read_len (tok mod 16) r3 = Some (ml, r4) /\
+                 pseq_ok (op s) rout lits (o1 + 256 * o2) ml true s'))
+    | Cont f s' =>
+        (f = true -> op s' <= oend - 64) /\
+        exists tok (r : list Z) ll (r1 lits : list Z) o1 o2 (r3 : list Z) ml (r4 : list Z),
+          bs = tok :: r /\ read_len (tok / 16) r = Some (ll, r1) /\
+          take (Z.to_nat ll) r1 = Some (lits, o1 :: o2 :: r3) /\ read_len (tok mod 16) r3 = Some (ml, r4) /\
+          ip s' + Z.of_nat (length r4) = iend /\ (length r4 < length bs)%nat /\ (1 <= length r4)%nat /\
+          pseq_ok (op s) rout lits (o1 + 256 * o2) ml false s'
+    end.
+
+  (* a sequence completed by an 18-byte copy *)
+  Lemma pseq_ok_copy18 (o : Z) (m1 : mem) rout lits off ml kf i :
+    out_at (vget m1) (o + Z.of_nat (length lits)) (rev lits ++ rout) -> pavail o rout -> 0 <= o ->
+    8 <= off <= 65535 -> 0 <= ml -> ml + 4 <= 18 -> o + Z.of_nat (length lits) + (ml + 4) <= oend ->
+    lowPrefix <= o + Z.of_nat (length lits) - off ->
+    pseq_ok o rout lits off ml false
+      (mkD i (o + Z.of_nat (length lits) + (ml + 4)) (copy18 m1 (o + Z.of_nat (length lits)) (o + Z.of_nat (length lits) - off)) kf).
+  Proof.
+    intros O Hav Ho Hoff Hml H18 Hfit Hmat.
+    pose proof (hroom_range dict dictSize) as Hhr.
+    destruct (copy18_lz m1 (o + Z.of_nat (length lits)) off) as [S R]; [lia|].
+    apply (pseq_ok_intro o m1); try assumption; try lia.
+    intros _. cbn [op dm].
+    replace (Z.min (ml + 4) (oend - (o + Z.of_nat (length lits)))) with (ml + 4) by lia.
+    split; [|left; reflexivity]. split; [reflexivity|]. split; [exact S|]. split; [|lia].
+    apply lzrec_v; [|lia|lia]. eapply lzrec_weaken; [exact R | lia | lia].
+  Qed.
+
+  Lemma safe_top_pcases s (bs rout : list Z) :
+    src_at srcm (ip s) bs -> bytes bs -> ip s + Z.of_nat (length bs) = iend -> 0 <= ip s < iend ->
+    0 <= op s -> op s <= oend -> out_at (vget (dm s)) (op s) rout -> pavail (op s) rout ->
+    ptop_post s bs rout (safe_top true dict srcm iend oend lowPrefix rlow dictm dictSize s) /\
+    match safe_top true dict srcm iend oend lowPrefix rlow dictm dictSize s with Cont f _ => f = false | _ => True end.
+  Proof.
+    intros Hs Hb Hie Hip Hop Hoe O Hav.
+    destruct bs as [|tok r]; [cbn [length] in Hie; lia|].
+    destruct (bytes_cons _ _ Hb) as [Htok Hbr].
+    destruct (src_at_cons _ _ _ _ Hs) as [Htokm Hsr].
+    destruct (nibbles tok Htok) as [Hn1 Hn2].
+    cbn [length] in Hie.
+    unfold safe_top. cbv zeta. rewrite Htokm.
+    assert (HL : forall p1 kf ll (r1 : list Z), read_len (tok / 16) r = Some (ll, r1) ->
+               src_at srcm p1 r1 -> bytes r1 -> p1 + Z.of_nat (length r1) = iend -> 0 <= p1 -> 0 <= ll ->
+               let out := safe_lit true dict srcm iend oend lowPrefix rlow dictm dictSize (mkD p1 (op s) (dm s) kf) tok ll in
+               ptop_post s (tok :: r) rout out /\ match out with Cont f _ => f = false | _ => True end).
+    { intros p1 kf ll r1 Hrl Hs1 Hb1 Hie1 Hp1 Hll. cbv zeta.
+      pose proof (safe_lit_pcases p1 (op s) (dm s) kf tok r1 rout ll Hs1 Hb1 Hie1 Hp1 Htok Hll Hop Hoe O Hav) as HC.
+      destruct (safe_lit true dict srcm iend oend lowPrefix rlow dictm dictSize (mkD p1 (op s) (dm s) kf) tok ll) as [f s'|s'|s'];
+        cbn [plit_post ptop_post] in *; [| | split; exact I].
+      - destruct HC as (Hf & lits & o1 & o2 & r3 & ml & r4 & H1 & H2 & H3 & H3' & H4 & H5).
+        split; [|exact Hf]. split; [intros; subst f; discriminate|].
+        exists tok, r, ll, r1, lits, o1, o2, r3, ml, r4.
+        split; [reflexivity|]. split; [exact Hrl|]. split; [exact H1|]. split; [exact H2|].
+        destruct (take_spec _ _ _ _ H1) as [Er1 Hl]. unfold byte in *.
+        assert (length r1 = (length lits + S (S (length r3)))%nat) by (rewrite Er1, app_length; reflexivity).
+        apply read_len_shorter in Hrl. cbn [length].
+        split; [lia|]. split; [lia|]. split; [exact H3' | exact H5].
+      - split; [|exact I]. exists tok, r, ll, r1. split; [reflexivity|]. split; [exact Hrl|]. split; [exact Hll | exact HC]. }
+    destruct (negb (tok / 16 =? RUN_MASK) && ((ip s + 1 <? shortiend iend) && (op s <=? shortoend oend))) eqn:Esc; cbv beta iota.
+    - (* two-stage shortcut *)
+      assert (Hlt15 : tok / 16 < 15) by fin.
+      assert (Hrl : read_len (tok / 16) r = Some (tok / 16, r)).
+      { unfold read_len. assert (E : (tok / 16 =? 15) = false) by lia. rewrite E. reflexivity. }
+      destruct (ptake_total (Z.to_nat (tok / 16)) r) as (lits & r2 & Ht & Hr & Hlen); [fin|].
+      assert (Hr2 : (3 <= length r2)%nat) by (subst r; rewrite app_length in Hie; fin).
+      destruct r2 as [|o1 [|o2 r3]]; try (cbn [length] in Hr2; lia).
+      assert (Ell : tok / 16 = Z.of_nat (length lits)) by lia.
+      rewrite Hr in Hsr, Hbr. destruct (src_at_app _ _ _ _ Hsr) as [Hsl Hs2]. destruct (bytes_app _ _ Hbr) as [_ Hb2].
+      destruct (bytes_cons _ _ Hb2) as [Ho1 Hb3]. destruct (bytes_cons _ _ Hb3) as [Ho2 Hb4].
+      rewrite Ell. unfold byte in *. rewrite (readLE16_src _ _ _ _ _ Hs2).
+      set (m1 := blit srcm (ip s + 1) (dm s) (op s) 16).
+      assert (O1 : out_at (vget m1) (op s + Z.of_nat (length lits)) (rev lits ++ rout)).
+      { apply lits_out_v with (m := dm s); try assumption.
+        - apply blit_same_below.
+        - apply (blit_lits srcm); [exact Hsl | lia]. }
+      assert (Hlenr : length r = (length lits + S (S (length r3)))%nat) by (rewrite Hr, app_length; reflexivity).
+      cbn [length] in Hr2.
+      destruct (negb (tok mod 16 =? ML_MASK) && (o1 + 256 * o2 >=? 8) &&
+                (is_prefix64k dict || (op s + Z.of_nat (length lits) - (o1 + 256 * o2) >=? lowPrefix))) eqn:E18; cbv beta iota.
+      + assert (Hlt15' : tok mod 16 < 15) by fin.
+        assert (Hrl2 : read_len (tok mod 16) r3 = Some (tok mod 16, r3)).
+        { unfold read_len. assert (E : (tok mod 16 =? 15) = false) by lia. rewrite E. reflexivity. }
+        split; [|reflexivity]. cbn [ptop_post ip op dm]. split; [intros; discriminate|].
+        exists tok, r, (tok / 16), r, lits, o1, o2, r3, (tok mod 16), r3.
+        split; [reflexivity|]. split; [exact Hrl|]. split; [exact Ht|]. split; [exact Hrl2|].
+        cbn [length]. split; [lia|]. split; [lia|]. split; [lia|].
+        assert (Hmatge : lowPrefix <= op s + Z.of_nat (length lits) - (o1 + 256 * o2)).
+        { destruct (is_prefix64k dict) eqn:E64; [specialize (Hp64 eq_refl); lia | fin]. }
+        replace (op s + Z.of_nat (length lits) + tok mod 16 + MINMATCH) with (op s + Z.of_nat (length lits) + (tok mod 16 + 4)) by fin.
+        apply pseq_ok_copy18; try assumption; try lia; fin.
+      + pose proof (after_pcases (ip s + 1 + Z.of_nat (length lits)) (op s) m1
+                      (ok s && rd_src iend (ip s) 1 && rd_src iend (ip s + 1) 16 && wr oend (op s) 16 &&
+                       rd_src iend (ip s + 1 + Z.of_nat (length lits)) 2)
+                      (tok mod 16) o1 o2 r3 rout lits Hs2 Hb2) as HA.
+        specialize (HA ltac:(cbn [length]; lia) ltac:(lia) Hn2 Hop ltac:(fin) O1 Hav).
+        destruct (copy_match_lbl true dict srcm iend oend lowPrefix rlow dictm dictSize
+                    (mkD (ip s + 1 + Z.of_nat (length lits) + 2) (op s + Z.of_nat (length lits)) m1 _) (o1 + 256 * o2) (tok mod 16)) as [f s'|s'|s'];
+          [ | | split; exact I ].
+        * destruct HA as (Hf & ml & r4 & H1 & H2 & H2' & H3 & H4).
+          split; [|exact Hf]. cbn [ptop_post]. split; [intros; subst f; discriminate|].
+          exists tok, r, (tok / 16), r, lits, o1, o2, r3, ml, r4.
+          split; [reflexivity|]. split; [exact Hrl|]. split; [exact Ht|]. split; [exact H1|].
+          cbn [length]. split; [lia|]. split; [lia|]. split; [exact H2' | exact H4].
+        * destruct HA as (ml & r4 & H1 & H4). split; [|exact I]. cbn [ptop_post].
+          exists tok, r, (tok / 16), r. split; [reflexivity|]. split; [exact Hrl|]. split; [lia|]. right.
+          exists lits, o1, o2, r3, ml, r4. repeat split; assumption.
+    - destruct (tok / 16 =? RUN_MASK) eqn:E15; cbv beta iota.
+      + pose proof (prvl_rev r (ip s + 1) (iend - RUN_MASK) true (ok s && rd_src iend (ip s) 1) Hsr ltac:(lia) ltac:(fin)) as HR.
+        destruct (rvl srcm iend (ip s + 1) (iend - RUN_MASK) true (ok s && rd_src iend (ip s) 1)) as [[[addl|] p'] k']; [|split; exact I].
+        destruct HR as (v & r1 & H1 & H2 & H3 & H4 & H5).
+        assert (Hrl : read_len (tok / 16) r = Some (v, r1)).
+        { unfold read_len. assert (E : (tok / 16 =? 15) = true) by fin. rewrite E. exact H1. }
+        destruct (read_len_suffix srcm iend _ _ _ _ (ip s + 1) Hn1 Hrl Hbr Hsr) as (_ & Hv & _ & Hs1 & Hb1).
+        replace (tok / 16 + addl) with v by fin.
+        unfold byte in *. rewrite <- H3 in Hs1.
+        apply (HL p' k' v r1 Hrl); try assumption; lia.
+      + assert (Hrl : read_len (tok / 16) r = Some (tok / 16, r)).
+        { unfold read_len. assert (E : (tok / 16 =? 15) = false) by fin. rewrite E. reflexivity. }
+        apply (HL (ip s + 1) _ (tok / 16) r Hrl); try assumption; lia.
+  Qed.
+
 End PRev.
